@@ -274,13 +274,15 @@ Definition amin (x y : F) : F := if altb A y x then y else x.
 Definition minl (s : seq F) : F := if s is x :: r then foldl amin x r else a0 A.
 
 (* _root_decomposition.py lines 65-69 / _diagonalization.py lines 46-50: t_mat + jitter_mat for one matrix.
-   [embed] = false: (jitter * mins) * torch.eye(k)   (RootDecomposition)
-   [embed] = true : torch.diag_embed(jitter * mins)  (Diagonalization)                       *)
+   [embed] = false: (jitter * mins) * torch.eye(k)                      (RootDecomposition): jitter on the diagonal.
+   [embed] = true : torch.diag_embed(jitter * mins).expand_as(t_mat)    (Diagonalization): mins was computed with
+                    keepdim=True, so diag_embed builds a 1 x 1 matrix and expand_as broadcasts it to EVERY entry
+                    (transcribed as written; known finding C09-diagonalization-jitter-all-entries). *)
 Definition add_jitter (embed : bool) (jit : F) (k : nat) (T : mat) : mat :=
   let mins := minl (mkseq (fun i => mget T i i) k) in
   let jm := amul A jit mins in
   mtab k k (fun i j => aadd A (mget T i j)
-                         (if embed then (if i == j then jm else a0 A)
+                         (if embed then jm
                           else amul A jm (if i == j then a1 A else a0 A))).
 
 (* q_mat.matmul(eigenvectors) *)
